@@ -18,16 +18,20 @@ type qinst struct {
 	t *Term
 }
 
-func (q *QHyp) matches(fam string) bool {
-	return fam == q.family || strings.HasPrefix(fam, q.family+".") || strings.HasPrefix(fam, q.family+"#")
+func famMatches(trig, fam string) bool {
+	return fam == trig || strings.HasPrefix(fam, trig+".") || strings.HasPrefix(fam, trig+"#")
 }
 
-func (q *QHyp) instance(j *Term) *Term {
-	if t, ok := q.cache[j.id]; ok {
+func (q *QHyp) instance(js []*Term) *Term {
+	k := ""
+	for _, j := range js {
+		k += fmt.Sprintf("%d,", j.id)
+	}
+	if t, ok := q.cache[k]; ok {
 		return t
 	}
-	t := q.body(j)
-	q.cache[j.id] = t
+	t := q.body(js)
+	q.cache[k] = t
 	return t
 }
 
@@ -68,34 +72,58 @@ func (c *VCtx) assertsFor(o *Obligation) []*Term {
 	for _, a := range as {
 		walk(a)
 	}
-	used := map[[2]int]bool{}
+	// candidate values per (hypothesis, variable)
+	cands := map[[2]int][]*Term{}
+	candSeen := map[[3]int]bool{}
+	total := 0
 	for round := 0; round < c.rounds() && len(pending) > 0; round++ {
 		cur := pending
 		pending = nil
 		var added []*Term
 		for _, r := range cur {
 			for _, q := range c.qhyps[:o.NQ] {
-				if !q.matches(r.fam) {
-					continue
-				}
-				for _, j := range q.solve(r.addr) {
-					k := [2]int{q.idx, j.id}
-					if used[k] {
-						continue
-					}
-					used[k] = true
-					inst := q.instance(j)
-					if !inst.IsTrue() {
-						added = append(added, inst)
+				for vi, qts := range q.trigs {
+					for _, qt := range qts {
+						if !famMatches(qt.family, r.fam) {
+							continue
+						}
+						j := qt.solve(r.addr)
+						ck := [3]int{q.idx, vi, j.id}
+						if candSeen[ck] {
+							continue
+						}
+						candSeen[ck] = true
+						cands[[2]int{q.idx, vi}] = append(cands[[2]int{q.idx, vi}], j)
+						if q.nvars == 1 {
+							if inst := q.instance([]*Term{j}); !inst.IsTrue() {
+								added = append(added, inst)
+							}
+							continue
+						}
+						// two variables: pair the new candidate with every candidate of the other
+						other := cands[[2]int{q.idx, 1 - vi}]
+						if len(other) > 24 {
+							other = other[:24]
+						}
+						for _, o2 := range other {
+							js := []*Term{j, o2}
+							if vi == 1 {
+								js = []*Term{o2, j}
+							}
+							if inst := q.instance(js); !inst.IsTrue() {
+								added = append(added, inst)
+							}
+						}
 					}
 				}
 			}
 		}
 		for _, t := range added {
 			as = append(as, t)
+			total++
 			walk(t)
 		}
-		if len(as) > 3000 {
+		if total > 2500 {
 			break
 		}
 	}
